@@ -5,6 +5,7 @@ package act
 import (
 	"fmt"
 	"sort"
+	"strings"
 
 	"ergo.services/ergo/gen"
 	"verif.local/vsched"
@@ -499,4 +500,138 @@ func c09RunSupervisor(r *harn.Result, cfg c08cfg, intensity, period, victim int,
 		return ""
 	})
 	return gaveUp
+}
+
+// two supervisors in one process: each counts its own failures only. Every sequence of failures of A's and B's first
+// child (who fails, and how long after the previous failure) up to length 4; after every failure the supervisor it
+// happened under has given up exactly if ITS failures within the period exceed the intensity.
+func init() {
+	for _, cc := range c08configsForC09() {
+		cfg := cc
+		harn.Register(harn.Scenario{Property: "C09", Name: "two-supervisors-" + cfg.name(), Run: func(c *harn.Ctx) *harn.Result {
+			r := harn.NewResult("enum")
+			gaps := []int64{0, 600, 1300}
+			maxLen := 4
+			if c.Thorough {
+				maxLen = 5
+			}
+			for intensity := 1; intensity <= 2; intensity++ {
+				seq := make([][2]int, maxLen) // (who, gap index)
+				var rec func(d int)
+				rec = func(d int) {
+					if d > 0 {
+						if stop := c09TwoSupervisors(r, cfg, intensity, gaps, seq[:d]); stop {
+							return
+						}
+					}
+					if d == maxLen {
+						return
+					}
+					for who := 0; who < 2; who++ {
+						for g := range gaps {
+							seq[d] = [2]int{who, g}
+							rec(d + 1)
+						}
+					}
+				}
+				rec(0)
+			}
+			r.States, r.Transitions, r.Distinct = r.Executions, r.Executions, r.Executions
+			r.Samples = append(r.Samples, map[string]any{"type": cfg.name(), "supervisors": 2, "intensity": "1..2", "period_s": 1, "gaps_ms": gaps, "max_failures": maxLen})
+			return r
+		}})
+	}
+}
+
+func c08configsForC09() []c08cfg {
+	var out []c08cfg
+	for _, typ := range []SupervisorType{SupervisorTypeOneForOne, SupervisorTypeAllForOne, SupervisorTypeRestForOne, SupervisorTypeSimpleOneForOne} {
+		out = append(out, c08cfg{typ: typ, strategy: SupervisorStrategyPermanent, signif: -1, nchild: 2})
+	}
+	return out
+}
+
+// returns true when the sequence need not be extended (a supervisor gave up, or a failure was reported)
+func c09TwoSupervisors(r *harn.Result, cfg c08cfg, intensity int, gaps []int64, seq [][2]int) (stop bool) {
+	r.Executions++
+	vsched.RunOnce(10, func(ex *vsched.Exec) string {
+		var sys2 [2]*sys
+		for i := range sys2 {
+			spec := cfg.spec()
+			spec.Restart.Intensity = uint16(intensity)
+			spec.Restart.Period = 1
+			st := newSys(spec)
+			st.run()
+			if cfg.typ == SupervisorTypeSimpleOneForOne {
+				st.guard(func() {
+					for k := 0; k < cfg.nchild; k++ {
+						st.s.StartChild(specNames[k])
+					}
+				})
+				st.run()
+			}
+			sys2[i] = st
+		}
+		base := ex.Now
+		var times [2][]int64
+		t := int64(0)
+		for k, step := range seq {
+			who := step[0]
+			t += gaps[step[1]]
+			ex.Now = base + t*1e6
+			st := sys2[who]
+			times[who] = append(times[who], t)
+			desc := func() string {
+				return fmt.Sprintf("%s, two supervisors A and B in one process, intensity %d, period 1s; failures (supervisor, ms): %v", cfg.name(), intensity, describeSeq(seq[:k+1], gaps))
+			}
+			pids := st.f.liveOf(specNames[0])
+			if len(pids) == 0 {
+				r.Fail("child-not-restarted", "%s: the first child of %c is not running before this failure", desc(), 'A'+rune(who))
+				stop = true
+				return ""
+			}
+			st.f.die(pids[0], errCrash)
+			st.run()
+			for guard := 0; guard < 20 && len(st.f.exitReq) > 0 && st.ended == nil; guard++ {
+				var ps []gen.PID
+				for p := range st.f.exitReq {
+					ps = append(ps, p)
+				}
+				sort.Slice(ps, func(i, j int) bool { return ps[i].ID < ps[j].ID })
+				st.f.die(ps[0], st.f.exitReq[ps[0]])
+				st.run()
+			}
+			strict, lenient := refExceeded(times[who], 1, intensity)
+			ended := st.ended != nil
+			switch {
+			case ended && !lenient:
+				r.Fail("gave-up-too-early", "%s: supervisor %c terminated (%v) although only %d of ITS failures lie within the period", desc(), 'A'+rune(who), st.ended, countWithin(times[who], 1))
+				stop = true
+			case !ended && strict:
+				r.Fail("limit-not-enforced", "%s: supervisor %c is still running although %d of its failures lie within the period", desc(), 'A'+rune(who), countWithin(times[who], 1))
+				stop = true
+			case ended:
+				stop = true
+			}
+			if other := sys2[1-who]; other.ended != nil && !stop {
+				r.Fail("gave-up-too-early", "%s: supervisor %c terminated (%v) on a failure under the OTHER supervisor", desc(), 'A'+rune(1-who), other.ended)
+				stop = true
+			}
+			if stop {
+				return ""
+			}
+		}
+		return ""
+	})
+	return stop
+}
+
+func describeSeq(seq [][2]int, gaps []int64) string {
+	var out []string
+	t := int64(0)
+	for _, s := range seq {
+		t += gaps[s[1]]
+		out = append(out, fmt.Sprintf("%c@%d", 'A'+rune(s[0]), t))
+	}
+	return strings.Join(out, " ")
 }
